@@ -5,7 +5,7 @@ import urlfam as UF
 
 PROPERTY = "C06"
 LEVEL = "model_checking"
-BUDGET = {"quick": 240, "thorough": 2400}
+BUDGET = {"quick": 240, "thorough": 3600}
 BOUNDS = {"quick": "kernel: 4 unquoters x all raw texts of <= 3 code points + escape-run skeletons (4 hex holes + 1 free) x 2 backends; U(Q(t)) == t for <= 2 code points",
           "thorough": "kernel: raw texts of <= 4 code points + escape-run skeletons (8 hex holes); round trip <= 3 code points"}
 ASSUMPTIONS = ["lone surrogates are excluded from the read-back clause (the property excepts them)",
